@@ -297,22 +297,57 @@ example :
   exact C03_cofactors_history_independent_full p2 .chol _ _ true true none none c1 c2 ops [] hv trivial (.qbb 1 2) trivial
     trivial trivial (C04.Full.factsF_inputOf .chol p2) (C04.Full.factsF_inputOf .chol p2) (by decide +kernel) (by decide +kernel)
 
+/-- … and svd (1×1 problems: the Golub–Reinsch sweep on the rationals is evaluated by the kernel only for a single
+    column): `q_xx(1,1)` on problem 1, reset to problem 2, against a fresh object given problem 2 -/
 example :
-    let p1 : Ls.Problem Rat := { m := 3, n := 2, rows := #[#[(1, 1)], #[(2, 1)], #[(1, 1), (2, 1)]],
-                                 cov := #[⟨3, 0, #[1, 1, 1]⟩], rhs := #[1, 2, 4], reg := .none }
-    let p2 : Ls.Problem Rat := { m := 3, n := 2, rows := #[#[(1, 2)], #[(1, 1), (2, -1)], #[(2, 3)]],
-                                 cov := #[⟨3, 0, #[1, 1, 1]⟩], rhs := #[1, 0, 4], reg := .none }
-    let ops := [C04.Full.HOp.q (.qbb 1 2), .q (.qxx 1 2), .resetNew (C04.Full.inputOf .svd p2)]
+    let p1 : Ls.Problem Rat := { m := 1, n := 1, rows := #[#[(1, 1)]], cov := #[⟨1, 0, #[1]⟩], rhs := #[1], reg := .none }
+    let p2 : Ls.Problem Rat := { m := 1, n := 1, rows := #[#[(1, 2)]], cov := #[⟨1, 0, #[1]⟩], rhs := #[3], reg := .none }
+    let ops := [C04.Full.HOp.resetNew (C04.Full.inputOf .svd p1), .q (.qxx 1 1), .resetNew (C04.Full.inputOf .svd p2)]
     let h := C04.Full.hsrun ⟨C04.Full.inputOf .svd p1, C04.Full.sinit false none⟩ ops
     let h' := C04.Full.hsrun ⟨C04.Full.inputOf .svd p2, C04.Full.sinit false none⟩ []
-    C04.Full.denoteF .svd p2 (C04.Full.cfgReg (!h.s.sub) h.s.list) (C04.Full.hsstep h (.q (.qxx 1 2))).2
-      = C04.Full.denoteF .svd p2 (C04.Full.cfgReg (!h'.s.sub) h'.s.list) (C04.Full.hsstep h' (.q (.qxx 1 2))).2 := by
+    C04.Full.denoteF .svd p2 (C04.Full.cfgReg (!h.s.sub) h.s.list) (C04.Full.hsstep h (.q (.qxx 1 1))).2
+      = C04.Full.denoteF .svd p2 (C04.Full.cfgReg (!h'.s.sub) h'.s.list) (C04.Full.hsstep h' (.q (.qxx 1 1))).2 := by
   intro p1 p2 ops h h'
   have c1 := (Gama.Props.C04.full_driver_cfg_ok .chol p1 none (Or.inl (by decide +kernel))).2.1
   have c2 := (Gama.Props.C04.full_driver_cfg_ok .chol p2 none (Or.inl (by decide +kernel))).2.1
+  have n2 : (C04.Full.inputOf .svd p2).nullity = 0 := by decide +kernel
   have hv : C04.Full.ValidS ⟨C04.Full.inputOf .svd p1, C04.Full.sinit false none⟩ ops :=
-    ⟨trivial, trivial, Or.inl (by decide +kernel), trivial⟩
-  exact C03_cofactors_history_independent_svd p2 _ _ false false none none c1 c2 ops [] hv trivial (.qxx 1 2) trivial
-    trivial trivial (C04.Full.factsF_inputOf .svd p2) (C04.Full.factsF_inputOf .svd p2) rfl rfl
+    ⟨Or.inr (Or.inl rfl), trivial, Or.inl n2, trivial⟩
+  exact C03_cofactors_history_independent_svd p2 _ _ false false none none c1 c2 ops [] hv trivial (.qxx 1 1) trivial
+    trivial trivial (C04.Full.factsF_inputOf .svd p2) (C04.Full.factsF_inputOf .svd p2) (by decide +kernel) (by decide +kernel)
+
+/-- `C03_cofactors_history_independent_adj`: two admissible data sets of the same shape; `x`, `set(data 2)`,
+    `set_algorithm(svd)`, `q_xx(1,3)`; the history is valid and the final cofactor queries are those of a fresh `Adj`
+    with algorithm svd holding data set 2 -/
+example :
+    let fi : C04.Full.Input := { n := 3, nullity := 0, resolves := fun _ => true }
+    let e : C04.EnvInput := { n := 3, nullity := 0, invp := fun i => i, inEnv := fun _ _ => true,
+                              resolves := fun _ => true, qbbIn := fun _ _ => true }
+    let d1 : C04.AdjM.AInput := { env := { e with id := 1 }, chol := fi, gso := fi, svd := fi, minx := none,
+                                  rows := fun _ => [1, 2], id := 1, m := 4, n := 3 }
+    let d2 : C04.AdjM.AInput := { d1 with env := { e with id := 2 }, id := 2 }
+    let ops := [C04.AdjM.HAOp.q .x, .setData d2, .q (.setAlg .svd), .q (.qxx 1 3)]
+    let h := C04.AdjM.harun (C04.AdjM.hainit d1 .gso) ops
+    d1.Ok ∧ C04.AdjM.HAValid d1 ops
+    ∧ (C04.AdjM.hastep h (.q (.qxx 3 1))).2 = C04.AdjM.hafresh d2 .svd (.qxx 3 1)
+    ∧ (C04.AdjM.hastep h (.q (.qbb 3 1))).2 = C04.AdjM.hafresh d2 .svd (.qbb 3 1) := by
+  intro fi e d1 d2 ops h
+  have ok : ∀ d : C04.AdjM.AInput, d.env.n = 3 → d.env.invp = (fun i => i) → d.env.nullity = 0 → d.rows = (fun _ => [1, 2]) →
+      d.chol = fi → d.gso = fi → d.svd = fi → d.minx = none → d.Ok := by
+    intro d hn hi h0 hr hc hg hs hm
+    refine ⟨fun i h _ => by rw [hi]; exact h, ?_, Or.inl h0, ?_, ?_, ?_⟩
+    · intro i c hc'
+      rw [hr] at hc'
+      simp at hc'
+      rw [hn]
+      rcases hc' with rfl | rfl <;> exact ⟨by decide, by decide⟩
+    · rw [hc, hm]; exact ⟨by decide, by decide, by decide, (by intro hk hu; first | exact Or.inl rfl | exact absurd hk (by decide) | exact absurd hu (by decide)), by decide⟩
+    · rw [hg, hm]; exact ⟨by decide, by decide, by decide, (by intro hk hu; first | exact Or.inl rfl | exact absurd hk (by decide) | exact absurd hu (by decide)), by decide⟩
+    · rw [hs, hm]; exact ⟨by decide, by decide, by decide⟩
+  have h1 : d1.Ok := ok d1 rfl rfl rfl rfl rfl rfl rfl rfl
+  have h2 : d2.Ok := ok d2 rfl rfl rfl rfl rfl rfl rfl rfl
+  have hv : C04.AdjM.HAValid d1 ops := ⟨trivial, h2, trivial, (show C04.AdjM.AOp.Valid 3 (.qxx 1 3) from by decide), trivial⟩
+  have := (C03_cofactors_history_independent_adj (fun _ => (C04.emptyProblem : Ls.Problem Rat)) d1 h1 .gso ops hv 3 1 (by decide)).1
+  exact ⟨h1, hv, this.1, this.2⟩
 
 end Gama.Props.C03
